@@ -4,7 +4,9 @@ import DltypeModel.Eval
 
 `Sym` is the tree Python builds when the operator expression is evaluated (Python's own
 precedence / associativity decide its shape); `Sym.print` is `str()` of the resulting axis object,
-constant folding of literal-literal operands included; `Sym.pyEval` is the arithmetic Python's
+constant folding of literal-literal operands included — every operation object checks its operands when it is *constructed*,
+and the whole expression is constructed before any of it is printed, so an operand check that fails anywhere wins over every
+printing error (`Sym.hasBad` first, then `Sym.str`); `Sym.pyEval` is the arithmetic Python's
 evaluation order gives the expression.
 -/
 namespace Dltype
@@ -29,16 +31,27 @@ def Sym.litVal : Sym → Option Int
   | .lit n => some n
   | _ => none
 
-/-- `str(axis)` -/
-def Sym.print : Sym → Except PrintErr (List Char)
+/-- a `ConstantAxis` / `AnonymousAxis` occurs as an operand somewhere: `_assert_operand` raises TypeError in the constructor of
+    the operation object that receives it -/
+def Sym.hasBad : Sym → Bool
+  | .lit _ => false
+  | .var _ => false
+  | .bad => true
+  | .grp a => a.hasBad
+  | .isqrt a => a.hasBad
+  | .fn2 _ a b => a.hasBad || b.hasBad
+  | .bin _ l r => l.hasBad || r.hasBad
+
+/-- `str(axis)` of an expression whose construction succeeded -/
+def Sym.str : Sym → Except PrintErr (List Char)
   | .lit n => .ok (intStr n)
   | .var x => .ok x
-  | .bad => .error .typeError      -- refused when the enclosing operation is constructed
-  | .grp a => do let s ← a.print; pure (['('] ++ s ++ [')'])
+  | .bad => .error .typeError      -- (never reached through `Sym.print`)
+  | .grp a => do let s ← a.str; pure (['('] ++ s ++ [')'])
   | .isqrt a =>
     match a.litVal with
     | some n => if n < 0 then .error .valueError else .ok (intStr (Int.ofNat (Nat.sqrt n.toNat)))
-    | none => do let s ← a.print; pure ("isqrt(".toList ++ s ++ [')'])
+    | none => do let s ← a.str; pure ("isqrt(".toList ++ s ++ [')'])
   | .fn2 f a b =>
     match a.litVal, b.litVal with
     | some x, some y =>
@@ -47,7 +60,7 @@ def Sym.print : Sym → Except PrintErr (List Char)
       | .max => .ok (intStr (if x ≥ y then x else y))
       | .isqrt => .error .unmodelled
     | _, _ => do
-      let sa ← a.print; let sb ← b.print
+      let sa ← a.str; let sb ← b.str
       pure ((match f with | .min => "min(" | .max => "max(" | .isqrt => "isqrt(").toList ++ sa ++ [','] ++ sb ++ [')'])
   | .bin o l r =>
     match l.litVal, r.litVal with
@@ -59,8 +72,12 @@ def Sym.print : Sym → Except PrintErr (List Char)
       | .div => if y = 0 then .error .zeroDivision else .ok (intStr (Int.fdiv x y))
       | .exp => if y < 0 then .error .unmodelled else .ok (intStr (x ^ y.toNat))
     | _, _ => do
-      let sl ← l.print; let sr ← r.print
+      let sl ← l.str; let sr ← r.str
       pure (sl ++ [match o with | .add => '+' | .sub => '-' | .mul => '*' | .div => '/' | .exp => '^'] ++ sr)
+
+/-- evaluating the Python operator expression (constructs every operation object, operands left to right), then `str()` -/
+def Sym.print (s : Sym) : Except PrintErr (List Char) :=
+  if s.hasBad then .error .typeError else s.str
 
 /-- the arithmetic Python's evaluation of the operator expression denotes -/
 def Sym.pyEval (σ : Name → Option Int) : Sym → Option Int
@@ -99,8 +116,12 @@ inductive Axis
   | const (name : Name) (n : Int)     -- `ConstantAxis("name", n)` → `name=n`
   deriving Repr, Inhabited
 
+def Axis.hasBad : Axis → Bool
+  | .expr s => s.hasBad
+  | _ => false
+
 def Axis.print : Axis → Except PrintErr (List Char)
-  | .expr s => s.print
+  | .expr s => s.str
   | .ellipsis => .ok ['.', '.', '.']
   | .anon n => .ok ('*' :: n)
   | .const k n => .ok (k ++ ['='] ++ intStr n)
@@ -110,8 +131,9 @@ def joinSp : List (List Char) → List Char
   | [x] => x
   | x :: xs => x ++ [' '] ++ joinSp xs
 
-/-- `str(Shape[...])` : the entries joined by single spaces -/
+/-- `str(Shape[...])` : the entries joined by single spaces (the subscript tuple is evaluated — every entry constructed —
+    before `Shape` prints any of them) -/
 def printShape (axes : List Axis) : Except PrintErr (List Char) :=
-  (axes.mapM Axis.print).map joinSp
+  if axes.any Axis.hasBad then .error .typeError else (axes.mapM Axis.print).map joinSp
 
 end Dltype
